@@ -273,6 +273,16 @@ fn step(st: &mut St, t: &[&str]) -> String {
             }
             format!("{}{} | {}", if all.is_empty() { "-".to_string() } else { all.join(" ") }, if st.net.is_empty() { "" } else { " flush-limit" }, cache_s(st))
         }
+        // ---------------- protocol parts of C03 / C04
+        ["acked", sn] => {
+            let Ok(sn) = sn.parse::<i64>() else { return "bad-op".into() };
+            let Some(w) = st.w.as_ref() else { return "bad-op".into() };
+            format!("{}", w.is_change_acknowledged(sn))
+        }
+        ["histrecv"] => {
+            let Some(r) = st.r.as_ref() else { return "bad-op".into() };
+            format!("{}", r.is_historical_data_received())
+        }
         ["net"] => {
             let v: Vec<String> = st.net.iter().map(|(d, b)| show_dgram(*d, b)).collect();
             if v.is_empty() { "-".into() } else { v.join(" ") }
